@@ -39,6 +39,10 @@ class Ctx:
             self.hotset = set()          # only a bias; never needed for soundness
         pre = len(os.path.join(self.root, 'a5') + os.sep)
         self.hot = {'%s:%d' % (f[pre:], l) for f, l in self.hotset}                   # 'rel/path.py:line'
+        # library at-fork handlers (e.g. "give the child a new lock") run inside os.fork(): the seam
+        # must be installed at that moment, or the child would get real, uninterceptable primitives
+        forks.before_fork = engine.patch_threading
+        forks.after_fork_in_parent = engine.unpatch_threading
         self._memo = {}
         self._tmemo = {}
         self._frame = None
@@ -47,14 +51,21 @@ class Ctx:
     # ---- oracle: the library itself, alone, cold, on one thread -------------------
     def _oracle_child(self, call, want_trace, gran='line'):
         _limit_memory()
-        seam = engine.Seam(self.root, gran)
-        seam.install()
-        return engine.solo_call(self.a5, seam, call, want_trace, cap=3_000_000 if gran == 'line' else 30_000_000)
+        seam = engine.Seam(self.root, 'line' if gran == 'ipoint' else gran)
+        seam.install(ipoints=(gran == 'ipoint'))
+        r = engine.solo_call(self.a5, seam, call, want_trace and gran != 'ipoint', cap=3_000_000 if gran != 'instr' else 30_000_000)
+        if gran != 'ipoint':
+            r.pop('itrace', None)
+            r.pop('isteps', None)
+        return r
 
     def oracle(self, call, want_trace=False, gran='line'):
         """gran='line' is the reference (value, line-step count); gran='instr' only adds
-        instruction-level step counts and traces for placing instruction-level preemptions."""
-        k = call_key(call) if gran == 'line' else 'I' + call_key(call)
+        instruction-level step counts and traces for placing instruction-level preemptions;
+        gran='ipoint' adds the call's interrupt points ('isteps', 'itrace') for placing faults."""
+        k = call_key(call) if gran == 'line' else {'instr': 'N#', 'ipoint': 'P#'}[gran] + call_key(call)
+        if gran == 'ipoint':
+            want_trace = True
         if want_trace:
             r = self._tmemo.get(k)
             if r is None:
@@ -114,19 +125,19 @@ class Ctx:
     def _threads_child(self, spec):
         _limit_memory()
         seam = engine.Seam(self.root, spec.get('gran', 'line'))
-        seam.install()
+        seam.install(ipoints=bool(spec.get('kill')))
         return engine.run_threads_node(self.a5, seam, spec, hot=self.hotset)
 
     def _seq_child(self, spec):
         _limit_memory()
         seam = engine.Seam(self.root, 'line')
-        seam.install()
+        seam.install(ipoints=bool(spec.get('kill')))
         return engine.run_seq_node(self.a5, seam, spec)
 
     def _history_child(self, spec):
         _limit_memory()
         seam = engine.Seam(self.root, 'line')
-        seam.install()
+        seam.install(ipoints=any(op.get('op') == 'interrupt' for op in spec['ops']))
         out = engine.run_history_node(self.a5, seam, spec)
         out['probes'] = probes(self.a5)
         return out
